@@ -159,7 +159,7 @@ PROPS = {
     "C18": dict(
         domains=[("reflect", "rt", 4200, 63000)],
         relevant=["C18:"],
-        theorems=["DV.Props.C18."+t for t in ["C18_faithful","C18_leaf","C18_optional","C18_leaf_inverse"]],
+        theorems=["DV.Props.C18."+t for t in ["C18_faithful","C18_leaf","C18_optional","C18_leaf_inverse","C18_inverse","C18_wire","C18_duplicate_code_counterexample"]],
         gen_obligations=["Gen.marshalCases"],
         trusted=CODEC_TRUST + ["Model.Reflect hand-written from diam/reflect.go (marshalStruct, marshal, scanStruct, unmarshal, parseAvpTag for single-key tags, isEmptyValue); Go's assignability / convertibility between the field types of the harness' struct family is the pair toData / fromData; the harness' reflection walker that describes Go struct types and values to the model"],
     ),
